@@ -4,6 +4,7 @@ import (
 	"math"
 	"math/bits"
 	"math/rand"
+	"reflect"
 	"strconv"
 	"strings"
 
@@ -15,6 +16,10 @@ import (
 )
 
 // C15 — project.WGS84/Mercator closed forms, project.Geometry, mvt Layer.ProjectToTile / ProjectToWGS84.
+//
+// Ops: consts, w2m, m2w, tile (Layer.ProjectToWGS84 then Layer.ProjectToTile; features may be nil or typed
+// nil), tiles (Layers.ProjectToWGS84 then Layers.ProjectToTile, each layer with its own extent), totile,
+// proj (call-counting affine point function), projh (slices that share backing arrays).
 //
 // As for C18, libm values (sin log atan exp tan) travel with every case in a table "T n (fn arg value)*"
 // recorded by mirrors of the closed forms; the implementation's outputs always come from the real orb code.
@@ -172,6 +177,42 @@ func runC15(op string, in []string) string {
 			eachVertexVal(layer.Features[0].Geometry, mir.toTile)
 			layer.ProjectToTile(tile)
 			return gs(layer.Features[0].Geometry) + " " + t.String()
+		case "tiles": // X Y Z n (extent k geom*)^n : Layers.ProjectToWGS84 then Layers.ProjectToTile
+			x, y, z := uint32(r.int()), uint32(r.int()), r.int()
+			tile := maptile.New(x, y, maptile.Zoom(z))
+			n := r.int()
+			var layers mvt.Layers
+			var mirs []*tileMirror
+			for j := 0; j < n; j++ {
+				extent := uint32(r.int())
+				k := r.int()
+				layer := &mvt.Layer{Name: "l" + strconv.Itoa(j), Version: 2, Extent: extent}
+				for i := 0; i < k; i++ {
+					layer.Features = append(layer.Features, geojson.NewFeature(r.geom()))
+				}
+				layers = append(layers, layer)
+				mirs = append(mirs, newTileMirror(t, tile, extent))
+			}
+			for j, l := range layers {
+				for _, f := range l.Features {
+					eachVertexVal(f.Geometry, mirs[j].toWGS84)
+				}
+			}
+			layers.ProjectToWGS84(tile)
+			var sb strings.Builder
+			for j, l := range layers {
+				for _, f := range l.Features {
+					sb.WriteString(gs(f.Geometry) + " ")
+					eachVertexVal(f.Geometry, mirs[j].toTile)
+				}
+			}
+			layers.ProjectToTile(tile)
+			for _, l := range layers {
+				for _, f := range l.Features {
+					sb.WriteString(gs(f.Geometry) + " ")
+				}
+			}
+			return sb.String() + t.String()
 		case "proj": // a b c d e f g h geom : project.Geometry with the k-th call computing an affine map shifted by k
 			var co [8]float64
 			for i := range co {
@@ -187,7 +228,11 @@ func runC15(op string, in []string) string {
 			res := project.Geometry(g, fn)
 			alias := "v"
 			if isSliceKind(g) {
-				alias = b2s(gs(g) == gs(res)) // in place: the argument now holds the projected values
+				// in place: the argument now holds the projected values AND the result is the very same slice
+				// (same first element, same length) - an identity map cannot pass by value equality alone;
+				// cell-level aliasing, spare capacity and nested headers are judged by the op projh
+				va, vr := reflect.ValueOf(g), reflect.ValueOf(res)
+				alias = b2s(gs(g) == gs(res) && va.Type() == vr.Type() && va.Pointer() == vr.Pointer() && va.Len() == vr.Len())
 			}
 			return gs(res) + " " + strconv.Itoa(calls) + " " + alias
 		case "projh": // a b c d e f <heap> <sgeom> : project.Geometry on slices that share backing arrays (lean/Orb/HeapOps.lean)
@@ -212,6 +257,9 @@ func runC15(op string, in []string) string {
 
 // tileGeom draws a geometry of any kind with integer coordinates in [-extent, 2*extent).
 func tileGeom(r *rand.Rand, extent int, depth int) orb.Geometry {
+	if extent == 0 {
+		extent = 2 // extent 0 has no pixel range; it runs at zoom+32, where pixels of [-2, 4) are 2^-32 tiles wide
+	}
 	pt := func() orb.Point {
 		c := func() float64 {
 			switch r.Intn(8) {
@@ -291,6 +339,32 @@ func tileGeom(r *rand.Rand, extent int, depth int) orb.Geometry {
 var pow2Extents = []int{256, 512, 1024, 2048, 4096, 8192}
 var otherExtents = []int{1000, 100, 4095, 4097, 3000, 10, 777, 5000, 6, 3}
 
+// extents outside the quantifier's list, for the lines of newProjection that the listed ones never
+// reach: isPowerOfTwo(0) (n = 32), small powers of two, powers of two from 16384 up to 2^31, and
+// non-powers of two up to MaxUint32 (beyond zoom + log2(extent) = 44 the round trip is twin-only)
+var edgeExtents = []int{0, 1, 2, 4, 8, 16, 32, 64, 128, 16384, 32768, 65536, 1 << 20, 1 << 24, 1 << 31,
+	5, 7, 9, 255, 257, 8191, 16383, 20000, 65535, 1000003, 1<<31 + 1, 1<<32 - 1}
+
+// featTok draws one feature geometry token string; now and then the nil interface or a typed nil slice
+func featTok(r *rand.Rand, extent int) string {
+	if r.Intn(12) == 0 {
+		return []string{"nil", "nMP", "nLS", "nMLS", "nR", "nPG", "nMPG", "nC"}[r.Intn(8)]
+	}
+	return gs(tileGeom(r, extent, 0))
+}
+
+// edgePixels: the corners of the pixel range [-extent, 2*extent) and two interior pixels
+func edgePixels(e int) orb.MultiPoint {
+	if e == 0 {
+		return orb.MultiPoint{{-1, -1}, {0, 0}, {1, 2}, {3, 3}}
+	}
+	if e == 1 {
+		return orb.MultiPoint{{-1, -1}, {0, 0}, {1, 1}, {0, 1}, {1, -1}}
+	}
+	f := float64(e)
+	return orb.MultiPoint{{-f, -f}, {0, 0}, {f - 1, f - 1}, {2*f - 1, 2*f - 1}, {math.Floor(f / 2), math.Floor(f / 3)}, {-1, f}}
+}
+
 func randTile(r *rand.Rand) (x, y uint32, z int) {
 	z = r.Intn(23)
 	n := uint32(1) << uint(z)
@@ -348,6 +422,39 @@ func genC15(c *Ctx) {
 			c.Case("w2m", sp(p))
 			c.Case("m2w", sp(project.WGS84.ToMercator(p)))
 		}
+		// WGS84.ToMercator's clamp to +-earthRadiusPi (projections.go:29): active from 85.0511288 on; log(tan(0)) = -Inf
+		// at -90; NaN beyond +-90 (twin only: outside the quantifier)
+		for _, lat := range []float64{90, -90, 85.06, -85.06, 89.9, -89.9, 85.0511, 85.0512, -85.0511, -85.0512, 91, -91, 180, -180} {
+			for _, lon := range []float64{0, 180, -122.4} {
+				c.Case("w2m", sp(orb.Point{lon, lat}))
+			}
+		}
+		// Mercator.ToWGS84 outside the square |x|, |y| <= R*pi (the way back clamps y): twin only
+		for _, m := range []orb.Point{{0, 21000000}, {0, -21000000}, {c15EarthRadiusPi, c15EarthRadiusPi}, {-c15EarthRadiusPi, -c15EarthRadiusPi},
+			{2.1e7, 0}, {-2.1e7, 5}, {0, 1e9}, {0, -1e9}, {0, math.Nextafter(c15EarthRadiusPi, 1e9)}} {
+			c.Case("m2w", sp(m))
+		}
+		// newProjection on every edge extent x four tiles (zoom 0, 2, 10, 22)
+		for _, e := range edgeExtents {
+			for _, tl := range [][3]int{{0, 0, 0}, {1, 1, 2}, {300, 700, 10}, {2097157, 1048653, 22}} {
+				c.Case("tile", tileHdr(uint32(tl[0]), uint32(tl[1]), tl[2], e)+" 1 "+gs(edgePixels(e)))
+			}
+		}
+		// level = zoom + log2(extent) >= 64: `1 << level` wraps to 0, maxtiles = 0 (twin only: zoom > 22)
+		for _, h := range []string{"0 0 40 16777216", "5 7 63 2", "0 0 33 2147483648", "3 1 64 1000", "0 0 100 256", "1 2 32 0", "1 2 31 0", "9 9 62 1"} {
+			c.Case("tile", h+" 1 "+gs(orb.MultiPoint{{0, 0}, {1, 2}, {-1, 5}}))
+		}
+		// nil and typed-nil feature geometries; Layers of several extents
+		c.Case("tile", "1 1 2 4096 3 nil P "+fb(2048)+" "+fb(2048)+" nLS")
+		c.Case("tile", "1 1 2 1000 2 nC nil")
+		c.Case("tiles", "1 1 2 0")
+		c.Case("tiles", "1 1 2 1 4096 0")
+		c.Case("tiles", "1 1 2 3 4096 1 P "+fb(2048)+" "+fb(2048)+" 1000 2 "+gs(orb.LineString{{0, 0}, {999, 999}, {-1000, 1999}})+" nil 0 1 "+gs(orb.MultiPoint{{0, 0}, {1, 2}}))
+		c.Case("tiles", "300 700 10 2 512 1 "+gs(orb.Bound{Min: orb.Point{-512, 0}, Max: orb.Point{1023, 511}})+" 777 1 "+gs(orb.Polygon{{{0, 0}, {776, 0}, {776, 776}, {0, 0}}}))
+		// project.Bound with an overflowing point function: math.Min / math.Max propagate the NaN
+		c.Case("proj", strings.Join([]string{fb(2), fb(-2), fb(0), fb(0), fb(0), fb(1), fb(0), fb(0)}, " ")+" "+gs(orb.Bound{Min: orb.Point{1.7e308, 1.7e308}, Max: orb.Point{1, 5}}))
+		c.Case("proj", strings.Join([]string{fb(2), fb(-2), fb(0), fb(0), fb(0), fb(1), fb(0), fb(0)}, " ")+" "+gs(orb.Bound{Min: orb.Point{1, 5}, Max: orb.Point{1.7e308, 1.7e308}}))
+		c.Case("proj", strings.Join([]string{fb(2), fb(-2), fb(0), fb(0), fb(2), fb(-2), fb(0), fb(0)}, " ")+" "+gs(orb.Collection{orb.Bound{Min: orb.Point{-1.7e308, 1.7e308}, Max: orb.Point{1.7e308, -1.7e308}}, orb.Bound{Min: orb.Point{0, 0}, Max: orb.Point{math.Copysign(0, -1), math.Copysign(0, -1)}}}))
 	}
 	// exhaustive per-axis scans of sampled tiles: every pixel coordinate in [-extent, 2*extent) on both axes
 	idx := 0
@@ -376,6 +483,12 @@ func genC15(c *Ctx) {
 		case 2:
 			g[1] = (r.Float64()*2 - 1) * 1e-6
 		}
+		if r.Intn(16) == 0 { // beyond the mercator range: the clamp (twin only)
+			g[1] = []float64{85.0511, 85.0512, 85.06, 86, 89, 89.9, 90}[r.Intn(7)] + r.Float64()*1e-3*float64(r.Intn(2))
+			if r.Intn(2) == 0 {
+				g[1] = -g[1]
+			}
+		}
 		c.Case("w2m", sp(g))
 		m := orb.Point{(r.Float64()*2 - 1) * c15EarthRadiusPi, (r.Float64()*2 - 1) * 19971868.0} // |y| up to lat 85.05
 		if r.Intn(6) == 0 {
@@ -389,12 +502,35 @@ func genC15(c *Ctx) {
 		if r.Intn(3) == 0 {
 			extent = otherExtents[r.Intn(len(otherExtents))]
 		}
+		if r.Intn(16) == 0 {
+			extent = edgeExtents[r.Intn(len(edgeExtents))]
+		}
 		nf := 1 + r.Intn(2)
 		var sb strings.Builder
 		for i := 0; i < nf; i++ {
-			sb.WriteString(" " + gs(tileGeom(r, extent, 0)))
+			sb.WriteString(" " + featTok(r, extent))
 		}
 		c.Case("tile", tileHdr(x, y, z, extent)+" "+strconv.Itoa(nf)+sb.String())
+		// Layers.ProjectToWGS84 / ProjectToTile: 0-3 layers, each with its own extent
+		if k%8 == 0 {
+			nl := r.Intn(4)
+			var lb strings.Builder
+			for j := 0; j < nl; j++ {
+				e := pow2Extents[r.Intn(len(pow2Extents))]
+				switch r.Intn(6) {
+				case 0, 1:
+					e = otherExtents[r.Intn(len(otherExtents))]
+				case 2:
+					e = edgeExtents[r.Intn(len(edgeExtents))]
+				}
+				nfj := r.Intn(3)
+				lb.WriteString(" " + strconv.Itoa(e) + " " + strconv.Itoa(nfj))
+				for i := 0; i < nfj; i++ {
+					lb.WriteString(" " + featTok(r, e))
+				}
+			}
+			c.Case("tiles", strconv.Itoa(int(x))+" "+strconv.Itoa(int(y))+" "+strconv.Itoa(z)+" "+strconv.Itoa(nl)+lb.String())
+		}
 		// lon/lat geometry to tile coordinates (twin only)
 		if k%3 == 0 {
 			c.Case("totile", tileHdr(x, y, z, extent)+" "+gs(geoGeomMerc(r)))
@@ -412,6 +548,14 @@ func genC15(c *Ctx) {
 		mode := []CoordMode{CoordSmallInt, CoordInt, CoordHalf, CoordFloat}[r.Intn(4)]
 		pg := genGeom(r, GenOpts{Mode: mode, MaxPts: 5, MaxDepth: 3, TopNil: true}, 0)
 		c.Case("proj", strings.Join(co[:], " ")+" "+gs(pg))
+		if k%16 == 0 { // overflow: Inf - Inf = NaN inside the point function, then math.Min / math.Max of project.Bound
+			h := func() float64 { return []float64{1.7e308, -1.7e308, 1, -3, 0, 9e307}[r.Intn(6)] }
+			var og orb.Geometry = orb.Bound{Min: orb.Point{h(), h()}, Max: orb.Point{h(), h()}}
+			if r.Intn(3) == 0 {
+				og = orb.Collection{og, orb.MultiPoint{{h(), h()}, {h(), h()}}}
+			}
+			c.Case("proj", strings.Join(co[:], " ")+" "+gs(og))
+		}
 
 		// project.Geometry on geometries whose slices share backing arrays
 		genProjH(c)
